@@ -22,7 +22,10 @@ def run(rep):
                        "x every failing stage or none x 2 error objects x 2 argument vectors; fmap and join error forms and join.fmap "
                        "with 0..3 results of every type x every failing stage x error objects; traverse to every result type over "
                        "nil and lists of length 0..4 with the failure at every index; toerror over 8 naming schemes x 1..3 parameters "
-                       "x 0..2 results x ok/not ok x 2 error objects; one package per class. Helpers that return a function (compose, "
+                       "x 0..2 results x ok/not ok x 2 error objects; 9 types in place of `error` (custom error types with value / pointer "
+                       "receiver, pointer to one, named interface, four near-miss method shapes) as last result of compose/traverse/fmap/join "
+                       "stages and as the error value of join/toerror (accept/refuse vs exit status, compile, behaviour incl. the nil custom "
+                       "error); one package per class. Helpers that return a function (compose, "
                        "toerror, fmap's error form with >= 2 results, and `fn, e := deriveFmap(f, g); deriveJoin(fn, e)`) are observed "
                        "at three moments: the call log when the helper returns, and two invocations of the returned function with a "
                        "fresh log each (compose/toerror: nothing before, the whole chain once per invocation; fmap: g then f exactly "
